@@ -205,6 +205,8 @@ ADDED15 = {
     "C13": "C13.d: no __str__ uses a payload as the format TEMPLATE (text built at the raise sites with model names interpolated - a brace in a name raises while the message is printed), unless every construction passes a literal for it.",
     "C15": "C15.b: a value written between SINGLE quotes owes the same escaping (the backslash, then the single quote unless a `\"'\" not in text` test rules it out).",
 }
+ADDED15["C10"] = "C10.f: the operand of the escape decoding is followed through a name the decoding itself rebinds (text handed to the codec is its UTF-8 bytes read as Latin-1)."
+ADDED15["C16"] = "C16.b: a result name assigned for both candidate arguments in one walk over the arguments, without a look at what it holds and without a break, is decided (the one written last wins)."
 for _k, _v in ADDED15.items():
     CLAIMS[_k]["text"] += " " + _v
 ADDED14 = {
